@@ -44,7 +44,7 @@ var (
 	domU64  = []uint64{1, 0, 16, 262144, 1 << 40, math.MaxInt64}
 	domF32  = []float32{0.5, 0, 1, 2, -1, 100, 1.5e10, math.MaxFloat32, math.SmallestNonzeroFloat32, float32(math.Inf(1)), float32(math.NaN())}
 	domF64  = []float64{0.5, 0, 1, 2, -1, 127, 128, -128, -129, 32767, 32768, -32769, 0.1, 1e300, math.Copysign(0, -1), math.Inf(-1), math.NaN(), math.SmallestNonzeroFloat64}
-	domStr  = []string{"a", "", "b", rep("c", 31), rep("d", 32), rep("e", 1023), rep("f", 1024), "é", "中文", "x\x00y", "N", "Z", rep("g", 2100), "😀z"}
+	domStr  = []string{"a", "", "b", rep("c", 31), rep("d", 32), rep("e", 1023), rep("f", 1024), "é", "中文", "x\x00y", "N", "Z", rep("g", 2100), "a\uFFFDb", "😀z"}
 	domBin  = [][]byte{{1}, nil, {}, {0}, []byte(rep("\x07", 15)), []byte(rep("\x08", 16)), []byte("N"), []byte(rep("\xff", 1023)), []byte(rep("b", 1024)), []byte(rep("\x41", 5000))}
 	domTime = []time.Time{RefTime, {}, time.Date(2020, 1, 2, 3, 4, 5, 0, time.UTC), time.Date(2020, 1, 2, 3, 4, 0, 0, time.UTC),
 		time.Date(1969, 12, 31, 23, 58, 20, 500000000, time.UTC), time.Date(1960, 5, 6, 7, 8, 9, 0, time.UTC), time.Date(2040, 1, 1, 0, 0, 0, 0, time.UTC),
